@@ -23,7 +23,10 @@ import (
 // or more elements: keyword / fingerprint table, tag, attribute and event lists) are skipped, the
 // table-driven generators cover their entries; what remains is small (a few dozen words). The dictionary is an input source only: every string built
 // from it is in the domain of the properties, and no oracle depends on it.
-type srcDictT struct{ SQL, HTML []string }
+type srcDictT struct {
+	SQL, HTML           []string // words (2..16 bytes, with a letter)
+	SQLBytes, HTMLBytes []string // single bytes written as character or one-byte string literals
+}
 
 var (
 	srcDictOnce sync.Once
@@ -33,6 +36,7 @@ var (
 func srcDict() *srcDictT {
 	srcDictOnce.Do(func() {
 		sql, html := map[string]bool{}, map[string]bool{}
+		sqlB, htmlB := map[string]bool{}, map[string]bool{}
 		files, _ := filepath.Glob(filepath.Join(repoDir, "*.go"))
 		sort.Strings(files)
 		for _, f := range files {
@@ -55,6 +59,13 @@ func srcDict() *srcDictT {
 				into = into[:1]
 			case strings.HasPrefix(base, "xss"), strings.HasPrefix(base, "html5"):
 				into = into[1:]
+			}
+			intoB := []map[string]bool{sqlB, htmlB}
+			switch {
+			case strings.HasPrefix(base, "sqli"):
+				intoB = intoB[:1]
+			case strings.HasPrefix(base, "xss"), strings.HasPrefix(base, "html5"):
+				intoB = intoB[1:]
 			}
 			ast.Inspect(af, func(n ast.Node) bool {
 				if imp, ok := n.(*ast.ImportSpec); ok && imp != nil {
@@ -85,6 +96,12 @@ func srcDict() *srcDictT {
 					}
 					v = u
 				}
+				if len(v) == 1 {
+					for _, m := range intoB {
+						m[v] = true
+					}
+					return true
+				}
 				if len(v) < 2 || len(v) > 16 {
 					return true
 				}
@@ -111,7 +128,7 @@ func srcDict() *srcDictT {
 			sort.Strings(o)
 			return o
 		}
-		srcDictVal = srcDictT{SQL: flat(sql), HTML: flat(html)}
+		srcDictVal = srcDictT{SQL: flat(sql), HTML: flat(html), SQLBytes: flat(sqlB), HTMLBytes: flat(htmlB)}
 	})
 	return &srcDictVal
 }
@@ -177,4 +194,47 @@ func (c *Check) htmlDictInputs(p *ev.Part, fn func(w *Worker, s string)) {
 	}
 	c.dictSeq(p, words, htmlDictAlpha, 1, 4, each)
 	c.dictSeq(p, words, htmlDictAlpha[:5], 5, 5, each)
+}
+
+// extraBytes: the single bytes the source writes as literals that the byte-class alphabet does not contain.
+// A byte the scanners start to treat specially is, almost always, a character literal in their source.
+func extraBytes(src, alpha []string) []string {
+	in := map[string]bool{}
+	for _, a := range alpha {
+		in[a] = true
+	}
+	var out []string
+	for _, b := range src {
+		if !in[b] {
+			out = append(out, b)
+		}
+	}
+	return out
+}
+
+// srcByteInputs: every string of 0..maxLen core symbols with one extra byte inserted at every position, and
+// every hostile construct opener followed by the extra byte at the end of the input and before one more byte.
+func (c *Check) srcByteInputs(p *ev.Part, extras, core []string, maxLen int, hostile []string, fn func(w *Worker, s string)) {
+	c.EnumSeq(p, core, "\x00\x01", 0, maxLen, func(w *Worker, joined string) {
+		var syms []string
+		if joined != "" {
+			syms = strings.Split(joined, "\x00\x01")
+		}
+		for _, b := range extras {
+			for pos := 0; pos <= len(syms); pos++ {
+				fn(w, strings.Join(syms[:pos], "")+b+strings.Join(syms[pos:], ""))
+			}
+		}
+	})
+	c.ParRange(p, int64(len(hostile)), func(w *Worker, i int64) {
+		h := hostile[i]
+		for _, b := range extras {
+			for _, pre := range []string{"", " ", "1 ", "'", "a"} {
+				fn(w, pre+h+b)
+				fn(w, pre+h+b+"a")
+				fn(w, pre+h+b+" ")
+				fn(w, pre+h+" "+b)
+			}
+		}
+	})
 }
